@@ -286,8 +286,51 @@ def production_cases(rep, tier):
                 cid = f'C01.corpus.{dname}.{hashlib.sha1(sql.encode()).hexdigest()[:10]}'
                 if not any(b.id == cid for b in rep.bounded):
                     rep.add_bounded(Bounded(cid, False, sql, r, 'same tree and string', bound='test-suite statements'))
+    # user-written parentheses around every kind of operand under every kind of operator (printers must print children through to_string)
+    CONTEXTS = {'not': 'NOT {}', 'minus': '- {}', 'plus-left': '{} + x', 'minus-right': 'x - {}', 'mul-left': '{} * x', 'div-right': 'x / {}', 'eq-left': '{} = x', 'eq-right': 'x = {}',
+                'and-left': '{} AND x', 'or-right': 'x OR {}', 'is-null': '{} IS NULL', 'is-not-null': '{} IS NOT NULL', 'in': '{} IN (1, 2)', 'between': '{} BETWEEN 1 AND 2',
+                'like': "{} LIKE 'a'", 'function-arg': 'f({}, 1)', 'case-when': 'CASE WHEN {} THEN 1 ELSE 0 END', 'case-then': 'CASE WHEN x THEN {} ELSE 0 END', 'cast': 'CAST({} AS int)',
+                'alias': '{} AS y', 'nested': '(({}))'}
+    OPERANDS = ['(a = 1 OR b = 2)', '(a + b)', '(NOT a)', '(- a)', '(a AND b)', '(a BETWEEN 1 AND 2)', '(a IS NULL)', '(a)', "('s')", '(1)']
+    for dname in lrtab.DIALECTS:
+        for cname, tmpl in CONTEXTS.items():
+            for opnd in OPERANDS:
+                for where in (False, True):
+                    if where and cname == 'alias':
+                        continue
+                    e = tmpl.format(opnd)
+                    sql = f'SELECT * FROM t WHERE {e}' if where else f'SELECT {e} FROM t'
+                    n += 1
+                    try:
+                        r = roundtrip(sql, dname)
+                    except Exception:
+                        continue               # not a sentence of this dialect
+                    if r:
+                        cid = f'C01.paren.{dname}.{cname}'
+                        if not any(b.id == cid for b in rep.bounded):
+                            rep.add_bounded(Bounded(cid, False, sql, r, 'same tree and string', bound=f'{len(CONTEXTS)} operator contexts x {len(OPERANDS)} parenthesised operands x select list / WHERE'))
+    # key = value parameter lists (USING / SET / PARAMETERS ...): every statement kind that takes one x every kind of value the grammar allows there
+    KW_STMTS = {'select-using': 'SELECT * FROM int1.t AS a JOIN mindsdb.m AS b USING p = {}', 'create-model': 'CREATE MODEL m PREDICT y USING p = {}', 'retrain': 'RETRAIN m USING p = {}',
+                'finetune': 'FINETUNE m FROM db (select 1) USING p = {}', 'create-agent': 'CREATE AGENT a USING model = {}', 'update-agent': 'UPDATE AGENT a SET p = {}',
+                'create-skill': "CREATE SKILL s USING type = 't', p = {}", 'create-chatbot': "CREATE CHATBOT c USING database = 'd', agent = 'a', p = {}", 'create-ml-engine': 'CREATE ML_ENGINE e FROM h USING p = {}',
+                'create-kb': "CREATE KNOWLEDGE_BASE k USING model = m, storage = s.t, p = {}", 'evaluate': 'EVALUATE acc FROM (select 1) USING p = {}', 'create-database': 'CREATE DATABASE d WITH ENGINE = "e", PARAMETERS = {{"p": {}}}',
+                'create-job-noparam': None}
+    KW_VALUES = {'int': '1', 'float': '0.5', 'string': "'s'", 'null': 'null', 'true': 'true', 'false': 'false', 'array': '[1, null]', 'object': '{"k": null}', 'identifier': 'abc', 'dquote': '"s"'}
+    for sname, tmpl in KW_STMTS.items():
+        if tmpl is None:
+            continue
+        for vname, vtxt in KW_VALUES.items():
+            sql = tmpl.format(vtxt)
+            n += 1
+            try:
+                r = roundtrip(sql, 'mindsdb')
+            except Exception:
+                continue
+            if r:
+                cid = f'C01.kwparam.{sname}.{vname}'
+                rep.add_bounded(Bounded(cid, False, sql, r, 'same tree and string', bound=f'{len(KW_STMTS) - 1} statement kinds x {len(KW_VALUES)} value kinds'))
     rep.bounded_evals = n
-    rep.bounded_rule = ('one shortest sentence per grammar production (from the real grammar) and every SQL string constant of /repo/tests, x 3 dialects: parse, print, '
+    rep.bounded_rule = ('parenthesised operands of 10 shapes under 21 operator contexts (select list and WHERE, 3 dialects); key = value parameter lists of 12 statement kinds x 10 value kinds; one shortest sentence per grammar production (from the real grammar) and every SQL string constant of /repo/tests, x 3 dialects: parse, print, '
                         're-parse; to_tree() and string must be equal, also for copy(); variants of each sentence: integer literals 0, tokens spread over several indented lines; a failing production / statement is its own case')
 
 
